@@ -20,7 +20,7 @@ def run_heapmc(variant, depth, first, lasso, heap):
     out = build.build_variant(variant)
     e = build.env_for(variant)
     t0 = time.time()
-    p = subprocess.run([os.path.join(out, "harness", "heapmc"), str(depth), str(first), str(lasso), str(heap)],
+    p = subprocess.run([os.path.join(out, "harness", "heapmc"), str(depth), str(first), str(lasso), str(heap)], preexec_fn=common.die_with_parent,
                        env=e, stdout=subprocess.PIPE, stderr=subprocess.STDOUT, timeout=3000)
     txt = p.stdout.decode("utf-8", "replace")
     stats = {}
